@@ -155,7 +155,7 @@ def one_fault(res, al, steps, i, k, mode, cls, cfg, inj, keep):
         elif op in ("min", "max"):
             outcome = ("returned", getattr(s, op)(run.b(st["e"]), extra_constraints=extra, signed=st["signed"]))
         elif op == "solution":
-            outcome = ("returned", s.solution(run.b(st["e"]), st["v"], extra_constraints=extra))
+            outcome = ("returned", s.solution(run.b(st["e"]), run.b(st["v"]) if isinstance(st["v"], list) else st["v"], extra_constraints=extra))
         elif op in ("is_true", "is_false"):
             outcome = ("returned", getattr(s, op)(run.b(st["e"]), extra_constraints=extra))
         else:
